@@ -7,6 +7,7 @@ import Peppi.Lemmas.Unified
 import Peppi.Lemmas.C10Gen
 import Peppi.Lemmas.C10A
 import Peppi.Lemmas.PeppiRound
+import Peppi.Lemmas.Example
 set_option linter.unusedVariables false
 namespace Peppi.Props.C10
 
@@ -85,5 +86,40 @@ theorem peppiRead_written_skip {χ : Type} (T : TextOracle) (g : PGame χ) (star
     (hframes : g.frames = none → trailerOk = true) :
     peppiRead T true trailerOk (writtenEntries g startBytes endBytes) = .ok { g with frames := none } :=
   _root_.Peppi.peppiRead_written_skip T g startBytes endBytes trailerOk hstart hend hgecko hframes
+
+/- from `Peppi.Lemmas.Example` -/
+open Extracted in
+theorem example_A : (exReplay (exBlock 3 16 760) (exFrames [-123, -122, -122] 17 32 2 16 1 true) [2, 255, 0, 1, 255, 255]).WFAny T0
+    (startOf (exBlock 3 16 760)) none :=
+  _root_.Peppi.example_A 
+
+/- from `Peppi.Lemmas.Example` -/
+open Extracted in
+theorem example_B : (exReplay (exBlock 2 2 418) (exFrames [-123, -122, -122] 16 23 1 0 0 false) [2, 255]).WFAny T0
+    (startOf (exBlock 2 2 418)) none :=
+  _root_.Peppi.example_B 
+
+/- from `Peppi.Lemmas.Example` -/
+open Extracted in
+theorem example_C : (exReplay (exBlock 1 0 352) (exFrames [-123, -122, -121] 14 12 1 0 0 false) [2]).WFAny T0
+    (startOf (exBlock 1 0 352)) none :=
+  _root_.Peppi.example_C 
+
+/- from `Peppi.Lemmas.Example` -/
+open Extracted in
+theorem example_G : (exReplay (exBlock 3 16 760) (exFrames [-123, -122, -122] 17 32 2 16 1 true) [2, 255, 0, 1, 255, 255]).WFAny T0
+    (startOf (exBlock 3 16 760)) (some exGecko) :=
+  _root_.Peppi.example_G 
+
+/- from `Peppi.Lemmas.Example` -/
+open Extracted in
+theorem example_A_roundtrip (e : Bytes) :
+    let r := exReplay (exBlock 3 16 760) (exFrames [-123, -122, -122] 17 32 2 16 1 true) [2, 255, 0, 1, 255, 255]
+    let s := startOf (exBlock 3 16 760)
+    (∃ g, readSlp T0 {} (r.encodeAny s.version (portOccupancy s) none) = .ok g ∧
+      writeSlp g = .ok (r.encodeAny s.version (portOccupancy s) none)) ∧
+    ∀ n, n < (r.encodeAny s.version (portOccupancy s) none).length →
+      ∃ e, readSlp T0 {} ((r.encodeAny s.version (portOccupancy s) none).take n) = .err e :=
+  _root_.Peppi.example_A_roundtrip e
 
 end Peppi.Props.C10
